@@ -16,7 +16,11 @@ def run(tier, seed):
     vfsrun.bfs(out, "link1", ["--links", "1"] + ([] if thorough else ["--maxstates", "700"]), groups_per_chunk=430 if thorough else 50)
     if thorough:
         vfsrun.bfs(out, "link2", ["--links", "2", "--maxstates", "8000"], groups_per_chunk=500)
-    out.assumptions += ["Stdfs side of the same laws is decided by the backend comparison (C02)"]
+    # both backends on trees where a link points to a LINK (a chain, outside C02's domain): the queries C10 names must agree
+    # between the backends and with the reference (kind through the chain, own mode, target text)
+    from props import c02
+    c02.grid(out, "chains", tier, ["--chains", "--stride", "1" if thorough else "3"], nworkers=12, groups_per_chunk=40)
+    out.assumptions += ["the remaining Stdfs side of the same laws is decided by the backend comparison (C02)"]
     out.finish(dict(rule="all (link, target) position pairs over names {a,b} depth <= 3 that can coexist x target kind {file, dir, missing} x {absolute, relative} spelling, "
                          "each followed by 20 query / chmod / chown / remove steps; plus every reachable tree with <= 1 link x all queries; judged by TLC"))
 
